@@ -2,6 +2,7 @@ package main
 
 import (
 	"fmt"
+	"go/token"
 	"go/types"
 	"sort"
 	"strings"
@@ -198,47 +199,64 @@ func ruleExportOrder(r *Run) {
 	if fn == nil {
 		return
 	}
-	loops := naturalLoops(fn)
-	loopOf := func(in ssa.Instruction) *natLoop {
-		var best *natLoop
-		for _, l := range loops {
-			if l.Body[in.Block()] {
-				if best == nil || len(l.Body) < len(best.Body) {
-					best = l
-				}
-			}
-		}
-		return best
-	}
-	var paraCalls, tableCalls []*ssa.Call
-	allInstrs(fn, func(in ssa.Instruction) {
-		c, ok := in.(*ssa.Call)
-		if !ok {
-			return
-		}
-		cal := staticCallee(c)
-		if cal == nil || !p.inModule(cal) {
-			return
+	// writers: module functions that take a *document.Paragraph resp. *document.Table (beyond the receiver)
+	takes := func(cal *ssa.Function, name string) bool {
+		if len(cal.Params) < 2 {
+			return false
 		}
 		for _, par := range cal.Params[1:] {
-			if typeIs(par.Type(), pkgDoc, "Paragraph") {
-				paraCalls = append(paraCalls, c)
-			}
-			if typeIs(par.Type(), pkgDoc, "Table") {
-				tableCalls = append(tableCalls, c)
+			if typeIs(par.Type(), pkgDoc, name) {
+				return true
 			}
 		}
-	})
-	if len(paraCalls) == 0 || len(tableCalls) == 0 {
-		r.Unresolved("calls writing paragraphs and tables in (*MarkdownWriter).Write")
+		return false
+	}
+	// what a loop body emits: directly, or through a dispatching helper that is handed the element
+	// (writeBodyElement(element) with the type switch inside) — helpers are followed while they take
+	// neither a paragraph nor a table themselves
+	var emits func(f *ssa.Function, blocks map[*ssa.BasicBlock]bool, depth int) (para, table bool, first token.Pos)
+	emits = func(f *ssa.Function, blocks map[*ssa.BasicBlock]bool, depth int) (para, table bool, first token.Pos) {
+		allInstrs(f, func(in ssa.Instruction) {
+			if blocks != nil && !blocks[in.Block()] {
+				return
+			}
+			c, ok := in.(*ssa.Call)
+			if !ok {
+				return
+			}
+			cal := staticCallee(c)
+			if cal == nil || !p.inModule(cal) || cal.Pkg == nil || cal.Pkg.Pkg.Path() != pkgMd {
+				return
+			}
+			tp, tt := takes(cal, "Paragraph"), takes(cal, "Table")
+			if tp || tt {
+				para, table = para || tp, table || tt
+				if first == token.NoPos {
+					first = c.Pos()
+				}
+				return
+			}
+			if depth < 2 && cal != f {
+				p2, t2, _ := emits(cal, nil, depth+1)
+				if (p2 || t2) && first == token.NoPos {
+					first = c.Pos()
+				}
+				para, table = para || p2, table || t2
+			}
+		})
 		return
 	}
-	lp, lt := loopOf(paraCalls[0]), loopOf(tableCalls[0])
-	same := lp != nil && lp == lt
-	// the loop must range over Body.Elements itself
-	overElements := false
-	if same {
-		for b := range lp.Body {
+	var both, stray bool
+	pos := fn.Pos()
+	nLoops := 0
+	for _, l := range naturalLoops(fn) {
+		pa, ta, first := emits(fn, l.Body, 0)
+		if !pa && !ta {
+			continue
+		}
+		nLoops++
+		overElements := false
+		for b := range l.Body {
 			for _, in := range b.Instrs {
 				if ia, ok := in.(*ssa.IndexAddr); ok {
 					if ch, _ := addrChain(ia.X); len(ch) > 0 && fieldIs(p, ch[len(ch)-1], pkgDoc, "Body", "Elements") {
@@ -247,8 +265,21 @@ func ruleExportOrder(r *Run) {
 				}
 			}
 		}
+		if pa && ta && overElements {
+			both = true
+			pos = first
+		} else {
+			stray = true // a loop that emits only one kind, or walks something else than the element list
+			if pos == fn.Pos() {
+				pos = first
+			}
+		}
 	}
-	r.Check("export-order", "(*MarkdownWriter).Write", paraCalls[0].Pos(), same && overElements,
+	if nLoops == 0 {
+		r.Unresolved("calls writing paragraphs and tables in (*MarkdownWriter).Write")
+		return
+	}
+	r.Check("export-order", "(*MarkdownWriter).Write", pos, both && !stray,
 		"paragraphs and tables must be emitted from ONE loop over Body.Elements so that their interleaving is kept; Write walks all paragraphs first (GetParagraphs) and all tables afterwards (GetTables), so a table between two paragraphs moves to the end of the Markdown")
 }
 
